@@ -27,6 +27,7 @@ type Run struct {
 	Prog     string         `json:"prog"`
 	Val      uint64         `json:"val"`
 	Flows    [][3]int       `json:"flows"`
+	Aliases  [][2]int       `json:"aliases"` // pairs of probe ids whose values referred to overlapping memory in this run
 	Hops     [][3]int       `json:"hops"` // (source line, sink line, minimal number of reference hops from the sink argument)
 	Approved []int          `json:"approved"`
 	Entered  []int          `json:"entered"`
